@@ -826,7 +826,7 @@ func vfMsgExec(alphabet []vfMsgOp) func(hist []int, last bool) vfXResult {
 					}
 					base := *vfXFault.Base
 					base.PostDump = base.FaultDump
-					res.Violations = append(res.Violations, vfFaultOracles(op.String(), kind, failed, vfXFault.K, so.Code, preDump, res.FaultDump, &base, post)...)
+					res.Violations = append(res.Violations, vfFaultOracles(op.String(), kind, failed, vfXFault.K, so.Code, preDump, res.FaultDump, &base, post, pre)...)
 					res.Violations = append(res.Violations, vfMsgFaultFollowUp(t, ref, pre, op, so, failed, kind)...)
 					final := t.snap()
 					res.Key = final.Key()
